@@ -187,7 +187,21 @@ fn pathtok(t: &mut Tape, origin: (i64, i64)) -> String {
     toks.join("|")
 }
 
+/// a numeric subfield at or beyond its limits, or spelled unusually
+fn limit_int(t: &mut Tape) -> &'static str {
+    *t.pick(&["2147483647", "2147483648", "-2147483647", "-2147483648", "-2147483649", "4294967296", "99999999999", "1e3", "+2", "02", "2.0", "2.5", "-0", " 1", "1 ", "0x1", "", "4", "5", "255", "256", "-1", "101", "1000"])
+}
+
 fn extras(t: &mut Tape) -> String {
+    if t.chance(8) {
+        // every numeric subfield has its own parse and its own bound
+        let n = 1 + t.below(5);
+        let mut f: Vec<String> = (0..n).map(|i| if t.chance(40) { limit_int(t).to_string() } else { [t.below(4), t.below(4), t.below(3), t.below(101), 0][i.min(4)].to_string() }).collect();
+        if n == 5 {
+            f[4] = (*t.pick(&["", "f.wav", "x"])).to_string();
+        }
+        return f.join(":");
+    }
     match t.below(14) {
         0 => "".into(),
         1 => format!("{}:{}", t.below(5), t.below(5)),
